@@ -365,3 +365,11 @@ Proof.
   apply (unreadable_untouched outdir (fun fn0 => classify (dir fn0)) fresh fn lines Hn Hl).
   unfold classify. rewrite Hd, Hu. reflexivity.
 Qed.
+
+(* C04, the reading a user relies on: editing, adding or deleting user code (or anything else) in the OTHER files of the
+   directory never changes what a regeneration of the same code model writes for [fn] or for its LostCode file. *)
+Corollary other_files_irrelevant outdir fresh old old' fn lines :
+  names_ok (keys fresh) -> slookup fn fresh = Some lines -> old fn = old' fn ->
+  slookup fn (fst (regen outdir old fresh)) = slookup fn (fst (regen outdir old' fresh))
+  /\ slookup (lost_name fn) (fst (regen outdir old fresh)) = slookup (lost_name fn) (fst (regen outdir old' fresh)).
+Proof. intros Hn Hl Ho. exact (confined outdir fresh fresh old old' fn lines Hn Hn Hl Hl Ho). Qed.
